@@ -7,7 +7,7 @@ Import ListNotations.
 Local Open Scope N_scope.
 Local Open Scope res_scope.
 
-Ltac Zify.zify_post_hook ::= Z.div_mod_to_equations.
+Ltac Zify.zify_post_hook ::= Z.to_euclidean_division_equations.
 
 Lemma W_val : W = 18446744073709551616.
 Proof. reflexivity. Qed.
@@ -90,3 +90,79 @@ Definition ea_owned (ssz : N) (e : ea) : list N :=
   match ea_blk e with None => [ssz] | Some a => [a; ssz] end.
 Definition ea_owned_buf (e : ea) : list N :=
   match ea_blk e with None => [] | Some a => [a] end.
+
+(* ------------------------------------------------------------------ *)
+(* resize() with the constants 2, 4, 2 *)
+
+Lemma ea_blk_spec e : ea_blk e = if ea_alloc e =? 0 then None else Some (ea_alloc e).
+Proof. reflexivity. Qed.
+
+Lemma heap_free_buf e rest :
+  heap_run (ea_owned_buf e ++ rest) (ea_free_buf_ev e) = Some rest.
+Proof.
+  unfold ea_owned_buf, ea_free_buf_ev. destruct (ea_blk e) as [a|]; cbn; [|reflexivity].
+  rewrite N.eqb_refl. reflexivity.
+Qed.
+
+Lemma heap_realloc e n rest b :
+  n <> 0 ->
+  heap_run (ea_owned_buf e ++ rest) [ARealloc (ea_blk e) n b] =
+  Some (if b then n :: rest else ea_owned_buf e ++ rest).
+Proof.
+  intros Hn. unfold ea_owned_buf. destruct (ea_blk e) as [a|]; destruct b; cbn;
+    rewrite ?N.eqb_refl; reflexivity.
+Qed.
+
+Lemma resize_spec e nsize o :
+  ea_inv e -> nsize < W ->
+  exists ok e' o' ev,
+    resize_m 2 4 2 e nsize o = Ok (ok, e', o', ev) /\
+    (ok = true ->
+       ea_inv e' /\ ea_size e' = nsize /\
+       (forall k, (k <= N.to_nat (ea_size e))%nat -> (k <= N.to_nat nsize)%nat ->
+                  firstn k (ea_buf e') = firstn k (ea_buf e)) /\
+       ea_alloc e' / 4 <= nsize /\
+       (ea_alloc e < ea_alloc e' -> ea_alloc e' <= 2 * nsize) /\
+       refused ev = false) /\
+    (ok = false -> e' = e /\ refused ev = true) /\
+    (forall rest, heap_run (ea_owned_buf e ++ rest) ev = Some (ea_owned_buf e' ++ rest)).
+Proof.
+  intros (Hsz & Hlen & Hal) Hn. unfold resize_m. rewrite W_val in *.
+  set (nalloc := if ea_alloc e <? nsize then _ else _).
+  assert (Hna : nalloc < 18446744073709551616 /\ nsize <= nalloc /\ nalloc / 4 <= nsize /\
+                (nalloc = 0 -> nsize = 0) /\ (ea_alloc e < nalloc -> nalloc <= 2 * nsize)).
+  { subst nalloc.
+    assert (M1 : (ea_alloc e * 2) mod 18446744073709551616 <= ea_alloc e * 2) by (apply N.mod_le; lia).
+    assert (M3 : (ea_alloc e * 2) mod 18446744073709551616 < 18446744073709551616) by (apply N.mod_lt; lia).
+    assert (M4 : (nsize * 2) mod 18446744073709551616 < 18446744073709551616) by (apply N.mod_lt; lia).
+    assert (M2 : (nsize * 2) mod 18446744073709551616 <= nsize * 2) by (apply N.mod_le; lia).
+    destruct (N.ltb_spec (ea_alloc e) nsize) as [H1|H1].
+    - destruct (N.ltb_spec ((ea_alloc e * 2) mod 18446744073709551616) nsize) as [H2|H2]; lia.
+    - destruct (N.ltb_spec nsize (ea_alloc e / 4)) as [H2|H2]; lia. }
+  destruct Hna as (Hna1 & Hna2 & Hna3 & Hna4 & Hna5).
+  destruct (N.eqb_spec nalloc 0) as [Hz|Hz].
+  - specialize (Hna4 Hz). subst nsize. cbn [N.eqb].
+    eexists _, _, _, _. split; [reflexivity|]. split; [|split].
+    + intros _. unfold ea_inv; cbn [ea_size ea_alloc ea_buf length]. rewrite W_val. repeat split; try lia.
+      * intros k Hk1 Hk2. replace k with 0%nat by lia. reflexivity.
+      * unfold ea_free_buf_ev. destruct (ea_blk e); reflexivity.
+    + discriminate.
+    + intros rest. rewrite heap_free_buf. reflexivity.
+  - destruct (N.eqb_spec nalloc (ea_alloc e)) as [He|He]; cbn [negb].
+    + eexists _, _, _, _. split; [reflexivity|]. split; [|split].
+      * intros _. unfold ea_inv; cbn [ea_size ea_alloc ea_buf length]. rewrite W_val. repeat split; try lia.
+      * discriminate.
+      * intros rest. cbn. unfold ea_owned_buf, ea_blk. cbn. reflexivity.
+    + destruct (next o) as [b o'] eqn:Eo. destruct b.
+      * eexists _, _, _, _. split; [reflexivity|]. split; [|split].
+        -- intros _. unfold ea_inv; cbn [ea_size ea_alloc ea_buf length]. rewrite realloc_buf_length, W_val. repeat split; try lia.
+           intros k Hk1 Hk2. apply firstn_realloc_buf; lia.
+        -- discriminate.
+        -- intros rest. rewrite heap_realloc by exact Hz.
+           unfold ea_owned_buf, ea_blk. cbn [ea_alloc]. destruct (N.eqb_spec nalloc 0); [contradiction|].
+           reflexivity.
+      * eexists _, _, _, _. split; [reflexivity|]. split; [|split].
+        -- discriminate.
+        -- intros _. split; reflexivity.
+        -- intros rest. rewrite heap_realloc by exact Hz. reflexivity.
+Qed.
